@@ -208,7 +208,8 @@ def compute_polymer_connection(
     )
     connected = jnp.zeros_like(matrix, dtype=bool)
     if connected_slice is None:
-        connected = connected.at[..., 0].set(True)
+        # the bottom layer of the original matrix sits at index 1 if the matrix was padded
+        connected = connected.at[..., 1 if padded else 0].set(True)
     else:
         connected = connected.at[connected_slice].set(True)
 
